@@ -111,7 +111,7 @@ func zzCheckPool(gp *GenginePool, spec map[string]zzSpec, model int) {
 		}
 	}
 	// the pool is whole again: both instances are back
-	vnd.Assert(len(gp.freeGengines)+len(gp.additionGengines) == 2, "every instance was handed back")
+	vnd.Assert(len(zzFree(gp))+len(zzAdd(gp)) == 2, "every instance was handed back")
 }
 `
 
